@@ -80,6 +80,10 @@ def scalar_op(op, x, y):
         if op == "|" and not (V.kind_of(x) == "bool" and V.kind_of(y) == "bool"):
             raise Unsupported("bitwise | on integers")
         return V.s_or(x, y)
+    if op == "min":
+        return V.s_min(x, y)
+    if op == "max":
+        return V.s_max(x, y)
     return V.s_binop(op, x, y)
 
 
@@ -1038,17 +1042,19 @@ def np_outer(interp, a, b):
 
 
 def np_searchsorted(interp, a, v, side="left"):
-    """k with a[:k] < v <= a[k:] (side='left'); meaningful for sorted a (callers' precondition)."""
+    """k with a[:k] < v <= a[k:] (side='left'), a[:k] <= v < a[k:] (side='right'); meaningful for sorted a (callers'
+    precondition)."""
     from .interp import UnivFact
 
     cx = interp.cx
-    if side != "left" or not isinstance(a, Arr) or a.ndim != 1 or isinstance(v, Arr):
+    if side not in ("left", "right") or not isinstance(a, Arr) or a.ndim != 1 or isinstance(v, Arr):
         raise Unsupported("searchsorted form")
+    right = side == "right"
     cl = concrete_list(a)
     if cl is not None and not V.is_z3(v):
         import bisect
 
-        return bisect.bisect_left([float(x) for x in cl], float(v))
+        return (bisect.bisect_right if right else bisect.bisect_left)([float(x) for x in cl], float(v))
     k = cx.fresh("k")
     n = V.to_z3(a.shape[0])
     cx.assume(z3.And(k >= 0, k <= n))
@@ -1059,6 +1065,7 @@ def np_searchsorted(interp, a, v, side="left"):
             1,
             lambda i: z3.Implies(
                 z3.And(i >= 0, i < n),
+                z3.And(z3.Implies(i < k, V.to_real(fn(i)) <= vv), z3.Implies(i >= k, V.to_real(fn(i)) > vv)) if right else
                 z3.And(z3.Implies(i < k, V.to_real(fn(i)) < vv), z3.Implies(i >= k, V.to_real(fn(i)) >= vv)),
             ),
             sources=[a],
@@ -1138,14 +1145,74 @@ def np_sum(interp, x):
     return array_sum(interp.cx, x)
 
 
-def np_clip(interp, a, lo, hi):
-    def one(x):
-        m = V.s_min(x, hi)  # np.clip(a, lo, hi) == maximum(minimum(a, hi), lo)
-        return V.s_max(m, lo)
+def np_count_nonzero(interp, x):
+    if not isinstance(x, Arr) or x.kind != "bool":
+        raise Unsupported("count_nonzero of a non-boolean array")
+    return array_sum(interp.cx, x)
 
+
+def np_size(interp, x):
+    if not isinstance(x, Arr):
+        return 1
+    n = 1
+    for d in x.shape:
+        n = V.s_binop("*", n, d)
+    return n
+
+
+def _minmax(interp, op, a, b):
+    if isinstance(a, Arr) or isinstance(b, Arr):
+        return elementwise(interp.cx, op, a, b)
+    return scalar_op(op, a, b)
+
+
+def np_minimum(interp, a, b):
+    return _minmax(interp, "min", a, b)
+
+
+def np_maximum(interp, a, b):
+    return _minmax(interp, "max", a, b)
+
+
+def np_logical_not(interp, a):
     if isinstance(a, Arr):
-        return map1(a, one, a.kind)
-    return one(a)
+        if a.kind != "bool":
+            raise Unsupported("logical_not of a non-boolean array")
+        return map1(a, V.s_not, "bool")
+    return V.s_not(interp.truth(a))
+
+
+def np_logical_and(interp, a, b):
+    if isinstance(a, Arr) or isinstance(b, Arr):
+        return elementwise(interp.cx, "and", a, b)
+    return V.s_and(a, b)
+
+
+def np_logical_or(interp, a, b):
+    if isinstance(a, Arr) or isinstance(b, Arr):
+        return elementwise(interp.cx, "or", a, b)
+    return V.s_or(a, b)
+
+
+def np_clip(interp, a, a_min=None, a_max=None, out=None):
+    """np.clip(a, lo, hi) == maximum(minimum(a, hi), lo); the bounds may be arrays; out= stores in place"""
+    r = a
+    if a_max is not None:
+        r = _minmax(interp, "min", r, a_max)
+    if a_min is not None:
+        r = _minmax(interp, "max", r, a_min)
+    if out is not None:
+        if not isinstance(out, Arr) or not isinstance(r, Arr):
+            raise Unsupported("out= of a non-array")
+        c = V.shape_eq(out.shape, r.shape)
+        if c is not True:
+            interp.cx.oblige("np.clip(out=): shapes agree", c, kind="shape")
+        kind, fn = out.kind, r.fn
+        interp.cx.set_arr(out, fn=lambda *idx: V.cast_kind(fn(*idx), kind))
+        return out
+    if isinstance(a, Arr) and isinstance(r, Arr) and r.kind != a.kind and a.kind == "real":
+        r.kind = "real"
+    return r
 
 
 def np_dtype(interp, name):
@@ -1242,6 +1309,13 @@ NP_FUNCS = {
     "numpy.sum": np_sum,
     "numpy.dtype": np_dtype,
     "numpy.clip": np_clip,
+    "numpy.count_nonzero": np_count_nonzero,
+    "numpy.size": np_size,
+    "numpy.logical_not": np_logical_not,
+    "numpy.logical_and": np_logical_and,
+    "numpy.logical_or": np_logical_or,
+    "numpy.minimum": np_minimum,
+    "numpy.maximum": np_maximum,
     "numpy.sinh": transcendental("sinh"),
     "numpy.cosh": transcendental("cosh"),
     "numpy.tanh": transcendental("tanh"),
